@@ -100,23 +100,42 @@ PEND = (0xFF00, 0xFF01)
 
 
 @cond(bounds='C-FIND user against C-FIND provider (query/retrieve and modality-worklist variants per instance): k = 0..3 '
-             'matches (symbolic) with pending status FF00 / FF01 per match (symbolic), message id symbolic 0..65535, '
+             'matches (symbolic) with pending status FF00 / FF01 per match (symbolic), message id symbolic 0..65535 in the '
+             'first instance and one of {0, 255, 256, 65535} in the others (all-selector instances run outside the tracer), '
              'maximum PDU length 16384, 40 (multi-fragment responses) or exactly one identifier + 6 (one instance each), provider-thread schedule eager / '
-             'lagging (symbolic)', family={'mwl': [0, 1], 'msel': [0, 1, 2]}, timeout=300)
+             'lagging (symbolic)', family={'mwl': [0, 1], 'msel': [0, 1, 2]}, timeout=600)
 def find_end_to_end(k: int, w0: bool, w1: bool, w2: bool, mid: int, lazy: bool) -> bool:
     """
-    pre: 0 <= k <= 3 and 0 <= mid <= 65535
+    pre: 0 <= k <= 3 and 0 <= mid <= 65535 and (_traced() or mid <= 3)
     post: _
     """
+    from vt import sim
     k = pick(k, 0, 3)
-    msel = fam('msel')
+    if _traced():
+        ok = _find_e2e(k, (w0, w1, w2), mid, lazy, fam('msel'), fam('mwl'))
+    else:
+        # every input a selector: concrete from here on, outside the tracer (message id from 4 boundary values)
+        ws = tuple(bool(pick(int(w), 0, 1)) for w in (w0, w1, w2))
+        lz = bool(pick(int(lazy), 0, 1))
+        m = (0, 255, 256, 65535)[pick(mid, 0, 3)]
+        with sim._no_tracing():
+            ok = _find_e2e(k, ws, m, lz, fam('msel'), fam('mwl'))
+    deep(ok and k == 3 and lazy and w1)
+    return ok
+
+
+def _traced():
+    """one instance keeps the message id a symbolic 16-bit value through request, provider and responses"""
+    return fam('msel') == 0 and fam('mwl') == 0
+
+
+def _find_e2e(k, ws, mid, lazy, msel, mwl):
     # maximum PDU length: large, small (many fragments), or such that the first match is exactly one full fragment
     maxlen = (16384, 40, len(dsutils.encode(pool(0), True, True)) + 6)[msel]
-    small = msel == 1
-    sop = MWL if fam('mwl') else ROOT
-    scp = sopclass.modality_work_list_scp if fam('mwl') else sopclass.qr_find_scp
-    scu = sopclass.modality_work_list_scu if fam('mwl') else sopclass.qr_find_scu
-    pend = [PEND[1] if w else PEND[0] for w in (w0, w1, w2)][:k]
+    sop = MWL if mwl else ROOT
+    scp = sopclass.modality_work_list_scp if mwl else sopclass.qr_find_scp
+    scu = sopclass.modality_work_list_scu if mwl else sopclass.qr_find_scu
+    pend = [PEND[1] if w else PEND[0] for w in ws][:k]
     matches = [(pool(i), statuses.Status(p, dm.CFindRSPMessage)) for i, p in enumerate(pend)]
     pae = ProviderAE(matches)
     ua = UserAssoc(None, pae, scp, 3, sop, maxlen, lazy)
@@ -127,9 +146,6 @@ def find_end_to_end(k: int, w0: bool, w1: bool, w2: bool, mid: int, lazy: bool) 
         n += 1
         if n > 6:
             break
-    if fam('mwl'):
-        # modality_work_list_scu passes the pairs of qr_find_scu through unchanged: (data set, status)
-        pass
     ok = ua.complete and len(got) == k + 1
     if ok:
         for i in range(k):
@@ -141,7 +157,6 @@ def find_end_to_end(k: int, w0: bool, w1: bool, w2: bool, mid: int, lazy: bool) 
     # the query reached the provider's handler unchanged, once
     ok = ok and len(pae.seen) == 1 and dsutils.encode(pae.seen[0], True, True) == dsutils.encode(query(), True, True)
     ok = ok and len(ua.script) == 0
-    deep(ok and k == 3 and lazy and w1)
     return ok
 
 
@@ -157,15 +172,24 @@ def _rsp(status, ds, mid):
 
 @cond(bounds='C-FIND user alone against scripted responses: k = 0..3 pending responses (FF00/FF01 symbolic), then a '
              'final status chosen by symbolic index from {success, A700, C001, FE00 cancel, 0122}, followed by further '
-             '(stray) responses that must not be consumed', timeout=180)
+             '(stray) responses that must not be consumed', timeout=400)
 def find_user_stops(k: int, w0: bool, w1: bool, w2: bool, fin: int) -> bool:
     """
     pre: 0 <= k <= 3 and 0 <= fin <= 4
     post: _
     """
+    from vt import sim
     k, fin = pick(k, 0, 3), pick(fin, 0, 4)
+    ws = tuple(bool(pick(int(w), 0, 1)) for w in (w0, w1, w2))
+    with sim._no_tracing():               # every input is a selector: concrete from here on
+        ok = _find_user_stops(k, ws, fin)
+    deep(ok and k == 2 and fin == 3)
+    return ok
+
+
+def _find_user_stops(k, ws, fin):
     final = (0x0000, 0xA700, 0xC001, 0xFE00, 0x0122)[fin]
-    pend = [PEND[1] if w else PEND[0] for w in (w0, w1, w2)][:k]
+    pend = [PEND[1] if w else PEND[0] for w in ws][:k]
     script = [(_rsp(p, pool(i), 9), 3) for i, p in enumerate(pend)]
     script.append((_rsp(final, None, 9), 3))
     script.append((_rsp(0xFF00, pool(7), 9), 3))          # must stay unread
@@ -180,128 +204,6 @@ def find_user_stops(k: int, w0: bool, w1: bool, w2: bool, fin: int) -> bool:
     sent = ua.sent()
     ok = ok and len(sent) == 1 and sent[0].command_field == 0x0020 and sent[0].message_id == 9 \
         and sent[0].data == dsutils.encode(query(), True, True)
-    deep(ok and k == 2 and fin == 3)
-    return ok
-
-
-# ------------------------------------------------------------------------------------------------
-# octets in, octets out: the provider side is the real acceptor loop over the real provider
-# ------------------------------------------------------------------------------------------------
-
-EXPL_LE, EXPL_BE = '1.2.840.10008.1.2.1', '1.2.840.10008.1.2.2'
-LIVE_TS = {1: EXPL_LE, 3: EXPL_BE, 5: '1.2.840.10008.1.2'}
-
-
-def _split_messages(wire):
-    """P-DATA-TF octets written by the library -> list of Sent (one per DIMSE message, by last-fragment flags)"""
-    from vt.harness.svc import Sent
-    from pynetdicom2 import pdu
-    out, cur, have_cmd_last, expect_data = [], [], False, False
-    for raw in wire:
-        if raw[0] != 4:
-            continue
-        p = pdu.PDataTfPDU.decode(raw)
-        cur.append(p)
-        for v in p.data_value_items:
-            hdr = v.data_value[0]
-            if hdr == 3:
-                s_ = Sent(cur)
-                expect_data = s_.us(0x0800) != 0x0101
-                if not expect_data:
-                    out.append(s_)
-                    cur = []
-            elif hdr == 2:
-                out.append(Sent(cur))
-                cur = []
-    return out, not cur
-
-
-def _live_find(seq, packed, k, mid):
-    """one association whose peer got the FIND class accepted on contexts 1 (explicit LE), 3 (explicit BE) and 5
-    (implicit LE); queries are sent on the contexts listed in seq; -> list of per-query results"""
-    from vt import sim
-    from vt.harness import live as L, assoc as A
-    from pynetdicom2 import applicationentity, pdu
-    L.install(sim.SimClock(1000))
-    seen = []
-
-    class Entity(applicationentity.AE):
-        def __init__(self):
-            applicationentity.AEBase.__init__(self, [EXPL_LE, EXPL_BE, '1.2.840.10008.1.2'], 16384)
-            self.supported_scp.update({ROOT: sopclass.qr_find_scp})
-
-        def on_receive_find(self, ctx, ds):
-            seen.append((ctx.id, str(ctx.supported_ts), ds))
-            return iter([(pool(i), statuses.Status(PEND[i % 2], dm.CFindRSPMessage)) for i in range(k)])
-    ae = Entity()
-    la = L.LiveAcceptor(ae, 'PEER')
-    rq = pdu.AAssociateRqPDU('SCP', 'PEER', [pdu.ApplicationContextItem(A.APP_CTX)] + [
-        pdu.PresentationContextItemRQ(cid, pdu.AbstractSyntaxSubItem(ROOT), [pdu.TransferSyntaxSubItem(ts)])
-        for cid, ts in sorted(LIVE_TS.items())] + [A.user_info(16384)])
-    la.deliver(rq.encode())
-    la.establish()
-    results = []
-    for j, cid in enumerate(seq):
-        ts = pydicom.uid.UID(LIVE_TS[cid])
-        m = dm.CFindRQMessage()
-        m.message_id = mid + j
-        m.sop_class_uid = ROOT
-        m.priority = 0
-        m.data_set = dsutils.encode(query(), ts.is_implicit_VR, ts.is_little_endian)
-        m.set_length()
-        pdus = list(m.encode(cid, 16384))
-        if packed:
-            pdus = [pdu.PDataTfPDU([v for p in pdus for v in p.data_value_items])]
-        before = len(la.wire())
-        la.deliver(b''.join(p.encode() for p in pdus))
-        la.serve_one()
-        msgs, whole = _split_messages(la.wire()[before:])
-        results.append((cid, ts, msgs, whole))
-    return results, seen, la
-
-
-@cond(bounds='C-FIND provider behind the REAL acceptor loop and provider (octets in, octets out): the FIND class is accepted '
-             'on three contexts with different transfer syntaxes (1 explicit LE, 3 explicit BE, 5 implicit LE); 1..3 '
-             'queries on one association on contexts chosen by symbolic selectors, each query sent one PDV per PDU or '
-             'with command and identifier packed into ONE P-DATA-TF (symbolic); k = 0..3 matches (symbolic). Every '
-             'query must reach the handler unchanged with the context it arrived on, and its k pending responses + 1 '
-             'final response must come back on that context, in that context\'s transfer syntax, in order',
-      timeout=300)
-def find_over_live_acceptor(c0: int, c1: int, c2: int, n: int, packed: bool, k: int) -> bool:
-    """
-    pre: 0 <= c0 <= 2 and 0 <= c1 <= 2 and 0 <= c2 <= 2 and 1 <= n <= 3 and 0 <= k <= 3
-    post: _
-    """
-    from vt import sim
-    n, k = pick(n, 1, 3), pick(k, 0, 3)
-    seq = [(1, 3, 5)[pick(c, 0, 2)] for c in (c0, c1, c2)][:n]
-    packed = bool(pick(int(packed), 0, 1))
-    with sim._no_tracing():
-        ok = _find_over_live(seq, packed, k)
-    deep(ok and n == 3 and packed and k == 2 and seq[0] != seq[1])
-    return ok
-
-
-def _find_over_live(seq, packed, k):
-    results, seen, la = _live_find(seq, packed, k, 40)
-    ok = la.pump.err is None and len(seen) == len(seq) and la.errors == []
-    want_q = dsutils.encode(query(), True, True)
-    for j, (cid, ts, msgs, whole) in enumerate(results):
-        ok = ok and whole and len(msgs) == k + 1
-        if not ok:
-            return False
-        hcid, hts, hds = seen[j]
-        ok = ok and hcid == cid and hts == str(ts) and dsutils.encode(hds, True, True) == want_q
-        for i, s_ in enumerate(msgs):
-            ok = ok and s_.wellformed and s_.one_context() == cid and s_.command_field == 0x8020 \
-                and s_.responded_to == 40 + j
-            if i < k:
-                ok = ok and s_.status == PEND[i % 2] and s_.data is not None
-                if ok:
-                    got = dsutils.decode(s_.data, ts.is_implicit_VR, ts.is_little_endian)
-                    ok = dsutils.encode(got, True, True) == dsutils.encode(pool(i), True, True)
-            else:
-                ok = ok and s_.status == 0 and s_.data is None
     return ok
 
 
